@@ -279,7 +279,9 @@ func builtinCalls(x *ctx, prop string) {
 		{Type: []string{"Int"}}, {Type: []string{"String"}}, {Type: []string{"Float"}}, {Type: []string{"Int", "String"}}, {Type: "Int|Symbol"},
 		{Type: []string{"DefaultInt"}}, {Type: "?String"}, {Type: []string{"String"}, IsDefault: true}, {Type: "*Int"}, {Type: []string{"Untyped"}}, {Type: []string{"NilClass", "Float"}},
 	}
-	R := []gen.CfgRet{{Type: []string{"Int"}}, {Type: []string{"String"}}, {Type: "?Int"}, {Type: []string{"Int", "String"}}, {Type: "[String]"}, {Type: []string{"Float"}}, {Type: "String|NilClass"}, {Type: []string{"Symbol"}}}
+	R := []gen.CfgRet{{Type: []string{"Int"}}, {Type: []string{"String"}}, {Type: "?Int"}, {Type: []string{"Int", "String"}}, {Type: "[String]"}, {Type: []string{"Float"}}, {Type: "String|NilClass"}, {Type: []string{"Symbol"}},
+		// unions whose members resolve to the same container class with different content
+		{Type: []string{"OptionalInt", "OptionalString"}}, {Type: []string{"IntArray", "StringArray"}}, {Type: []string{"Number", "OptionalString"}}, {Type: []string{"OptionalFloat", "Int"}}}
 	maxSpec := 2
 	if thorough {
 		maxSpec = 3
@@ -502,6 +504,29 @@ func builtinCalls(x *ctx, prop string) {
 				c.verdict, c.reason = ref.Fails, o.reason
 			}
 			cases = append(cases, c)
+		}
+	}
+	// EXPR: operator chains on one row in which every call fits its declaration (arithmetic binds tighter than
+	// comparison, which binds tighter than &&): no diagnostic, and the row has the type of the outermost call
+	{
+		exprs := []struct{ src, want string }{
+			{"ei + ej * ew < en", "Bool"}, {"en - ei * 2 == 94", "Bool"}, {"es + et * 2 == \"abcdcd\"", "Bool"}, {"ei * ej + ew * en", "Integer"},
+			{"ei + ej * ew", "Integer"}, {"ej * ew < en", "Bool"}, {"ei + ej < en", "Bool"}, {"ei - ej / ew >= en", "Bool"}, {"ef * ei + ej > ew", "Bool"},
+			{"ei + ej * ew <=> en", ""}, {"ei % ej + ew != en", "Bool"}, {"es * 2 + et == es", "Bool"},
+		}
+		pre := "ei, ej, ew, en = 1, 2, 3, 10\nef = 1.5\nes = \"ab\"\net = \"cd\"\n"
+		if strings.Count(pre, "\n") != strings.Count(bcSetup, "\n")+1 {
+			// keep the probed call on the row the oracle looks at by padding / trimming the setup
+			for strings.Count(pre, "\n") < strings.Count(bcSetup, "\n")+1 {
+				pre += "ez = 0\n"
+			}
+		}
+		if strings.Count(pre, "\n") == strings.Count(bcSetup, "\n")+1 {
+			for _, e := range exprs {
+				c := bcCase{cfg: "core", src: pre + "dbtp " + e.src + "\n", recv: recvKind{"Integer", "1", nil}, method: "expr:" + e.src, args: nil, declared: true}
+				c.verdict, c.wantType = ref.Fits, e.want
+				cases = append(cases, c)
+			}
 		}
 	}
 	// select by property
